@@ -301,7 +301,11 @@ def get_app(c):
     def mk_before(i):
         def before(req):
             req.environ["verif.trace"].append("b%d" % i)
-            req.environ["verif.seen"].append((req.uri_rule, req.uri_handler is not None))
+            try:
+                pa = dict(req.path_args) if req.path_args is not None else None
+            except Exception as err:       # noqa
+                pa = repr(err)
+            req.environ["verif.seen"].append((req.uri_rule, req.uri_handler is not None, pa))
             return act(req.environ["verif.prog"].get("b%d" % i, "ret~N"))
         before.__name__ = "before%d" % i
         return before
@@ -328,7 +332,7 @@ def get_app(c):
     app.set_route("/hit", endpoint, state.METHOD_ALL)
     app.set_route("/only-post", endpoint, state.METHOD_POST)
     app.set_route("/rx/<n:int>", endpoint, state.METHOD_ALL)
-    app.set_regular_route(r"/raw/(\w+)", endpoint, state.METHOD_ALL)
+    app.set_regular_route(r"/raw/(?P<w>\w+)", endpoint, state.METHOD_ALL)
     if c["route"] in ("default", "defn"):
         app.set_default(endpoint, state.METHOD_ALL)
 
